@@ -224,7 +224,7 @@ class PA:
         for k, v in self.properties.items(): setattr(self, k, v)
     def get(self, name): return self.properties[name]
     def get_carray(self, name): return H(self.properties[name])
-    def get_number_of_particles(self): return len(self.properties['h'])
+    def get_number_of_particles(self, real=False): return len(self.properties['h'])
 class AE: pass
 out = []
 for case in d['cases']:
@@ -233,6 +233,10 @@ for case in d['cases']:
     integ.acceleration_evals = [ae]; integ._has_dt_adapt = None
     integ.fixed_h = False; integ.h_minimum = None
     r = integ.compute_time_step(case.get('dt', 0.1), case['cfl'])
+    if case.get('then'):
+        # a later step of the same run: the arrays have changed meanwhile
+        ae.particle_arrays = [PA(p) for p in case['then']]
+        r = integ.compute_time_step(case.get('dt', 0.1), case['cfl'])
     out.append(None if r is None else (float(r) if math.isfinite(r) else 'inf'))
 print(json.dumps(out))
 '''
@@ -241,7 +245,7 @@ print(json.dumps(out))
 def oracle(case):
     """The documented formula, straight from the property statement."""
     import math
-    arrays = case['arrays']
+    arrays = case.get('then') or case['arrays']
     cfl = case['cfl']
     adapt = [v for a in arrays if 'dt_adapt' in a for v in a['dt_adapt']]
     if adapt and min(adapt) > 0:
@@ -283,6 +287,10 @@ CASES = [
                                                  dt_force=[0.0])]),
     dict(name='force-only', cfl=0.25, arrays=[dict(h=[0.04, 0.09],
                                                    dt_force=[16.0, 4.0])]),
+    dict(name='adapt-array-fills-later', cfl=0.3, arrays=[
+        dict(h=[], dt_adapt=[]), dict(h=[0.1], dt_cfl=[2.0])], then=[
+        dict(h=[0.1, 0.1], dt_adapt=[0.002, 0.003]),
+        dict(h=[0.1], dt_cfl=[2.0])]),
 ]
 
 
@@ -390,22 +398,32 @@ def task_explicit(ctx, repo, m):
     positive = z3.ForAll([j], z3.Implies(z3.And(within(j, LEN), used(j)),
                                          MIN_ADAPT(j) > 0))
 
+    declared = z3.Exists([j], z3.And(within(j, LEN), HAS['dt_adapt'](j)))
+
     def post(o):
         if o.kind != 'return':
             return [('raise', z3.BoolVal(False))]
         v = o.value
+        # the flag cached for all later steps says whether some array
+        # DECLARES dt_adapt -- not whether it holds particles right now (an
+        # inlet-fed array is empty on the first step)
+        flag = o.state.env['self'].attrs.get('_has_dt_adapt')
+        fl = [('cached_flag_is_declaration_only',
+               (S.to_z3(S.to_bool(flag)) == declared) if flag is not None
+               else z3.BoolVal(False))]
         if v is None:
             # None only when dt_adapt is unused or its minimum is not > 0
-            return [('none', z3.Not(z3.And(some, positive)))]
+            return fl + [('none', z3.Not(z3.And(some, positive)))]
         out = [('finite', S.to_z3(S.b_not(S.xr(v).inf))
                 if S.is_sym(S.xr(v).inf) else z3.BoolVal(not S.xr(v).inf))]
         out += [('min.' + n, f) for n, f in fold_min_facts(
             v, LEN, used, lambda j_: MIN_ADAPT(j_), 'padapt')]
         out.append(('positive', S.to_z3(S.cmp('>', v, 0))))
-        return out
+        return fl + out
     ctx.prove('explicit.min', _collect(ex, outs, post, m.path),
               replay=replay_cases(('adapt-all-empty', 'adapt',
-                                   'one-particle-adapt')), use_nf=False)
+                                   'one-particle-adapt',
+                                   'adapt-array-fills-later')), use_nf=False)
 
 
 def hmin_facts(x, k, tag):
